@@ -244,7 +244,7 @@ def harvest(ctx, rep, f_de, f_sh):
                 start = len(MR.TAPE.log)
                 st = dict(cur=L.snap(individ_g), best=L.snap(opt._thefittest._genotype), pop=L.snap(opt._population_g_i), F=float(F), CR=float(CR))
                 if kind == "SHADE":
-                    st.update(pbest=[int(v) for v in opt._pbest_id], archive=L.snap(opt._population_archive))
+                    st.update(pbest=[int(v) for v in opt._pbest_id], archive=L.snap(opt._population_archive), fit=L.snap(opt._fitness_i))
                 out = orig(individ_g, F, CR)
                 st.update(out=L.snap(out), draws=list(MR.TAPE.log[start:]))
                 records.append(st)
@@ -279,6 +279,14 @@ def harvest(ctx, rep, f_de, f_sh):
                         Fi=st["F"], CRi=st["CR"], draws=st["draws"], out=st["out"].tolist())
             if kind == "SHADE":
                 rep.count("shade_new", (seed, len(rep.nontrivial)))
+                # "a p-best member": the p-best set consists of individuals at least as fit as every individual outside it
+                # (internal, maximisation-normalised fitness), and is non-empty
+                fit_ = np.asarray(st["fit"], dtype=np.float64)
+                inside = set(st["pbest"])
+                outside = [float(fit_[j]) for j in range(len(fit_)) if j not in inside]
+                if not inside or (outside and min(float(fit_[j]) for j in inside) < max(outside)):
+                    rep.problem("pbest", "SHADE: the p-best set handed to current-to-pbest contains an individual that is worse than one outside the set",
+                                dict(cfg, pbest=st["pbest"], fitness=fit_.tolist()), "pbest-not-best", True, st["pbest"], fit_.tolist(), "C07_shade_sound")
                 # distinctness observation (JADE/SHADE prescribe r1 != r2 != i): recorded, not part of the model
                 f_sh.add(f"({qv(st['cur'])}, {qm(st['pop'])}, {C.clist(st['pbest'], C.cz)}, {C.cq(st['F'])}, {C.cq(st['CR'])}, {qm(st['archive'])}, "
                          f"{qv(la)}, {qv(ra)}, {C.cdraws(ds)}, {qv(st['out'])})", case)
